@@ -111,6 +111,16 @@ SKIPPED = [
     "INSERT INTO {t} ({a}) VALUES (1)\nGO",
     "DELETE FROM {t}",
     "GRANT SELECT ON {t} TO {u}",
+    # other shapes of the same line-skipped families
+    "USE ROLE {u};",
+    "USE WAREHOUSE {s};",
+    "USE SCHEMA {s}.{t};",
+    "USE DATABASE {s}",
+    "INSERT OVERWRITE TABLE {t} SELECT {a}, {b} FROM {s}.{t};",
+    "insert into {t} select * from {s}.{t};",
+    "DELETE {t} WHERE {a} = 1;",
+    "GRANT ALL PRIVILEGES ON {t} TO {u} WITH GRANT OPTION;",
+    "GRANT {u} TO {v};",
 ]
 
 
@@ -409,7 +419,8 @@ SHORT_FORMS = [
     ("CREATE TABLE [dbo].[x] ([id] int IDENTITY(1,1) NOT NULL, [v] nvarchar(max), CONSTRAINT [pk_x] PRIMARY KEY CLUSTERED ([id] ASC) "
      "WITH (PAD_INDEX = OFF) ON [PRIMARY]) ON [PRIMARY] TEXTIMAGE_ON [PRIMARY];\n", "mssql"),
     ("CREATE TABLE `p.d.t` (x INT64 OPTIONS(description=\"d\"), ts TIMESTAMP) PARTITION BY DATE(ts) CLUSTER BY x OPTIONS(description=\"t\");\n", "bigquery"),
-    ("CREATE TABLE c (id int, extra text) INHERITS (parent);\nCREATE TABLE parent (id int);\n", "postgres"),
+    ("CREATE TABLE parent (id int, name text);\nCREATE TABLE c (id int, extra text) INHERITS (parent);\n", "postgres"),
+    ("CREATE TABLE c2 (id int, extra text) INHERITS (parent2);\nCREATE TABLE parent2 (id int);\n", "postgres"),
     ("CREATE TABLE pr (id int, ts timestamptz) PARTITION BY RANGE (ts);\n", "postgres"),
     ("CREATE EXTERNAL TABLE h (a int, b string) PARTITIONED BY (dt string) CLUSTERED BY (a) INTO 4 BUCKETS ROW FORMAT DELIMITED FIELDS TERMINATED BY ',' "
      "ESCAPED BY '\\\\' STORED AS TEXTFILE LOCATION 's3://b/p';\n", "athena"),
@@ -427,10 +438,31 @@ SHORT_FORMS = [
 _CORPUS = []
 
 
+# multi-statement scenarios: one table id defined twice with ALTER / INDEX statements on both definitions, SET statements with value lists,
+# a key column added and then renamed by ALTER statements
+SCENARIOS = [
+    ("CREATE TABLE orders (id int, customer_id int);\nALTER TABLE orders ADD CONSTRAINT fk_c FOREIGN KEY (customer_id) REFERENCES customers (id);\n"
+     "DROP TABLE orders;\nCREATE TABLE orders (id int, buyer_id int);\nALTER TABLE orders ADD CONSTRAINT fk_b FOREIGN KEY (buyer_id) REFERENCES buyers (id);\n", "sql"),
+    ("CREATE TABLE orders (id int, customer_id int);\nCREATE INDEX ix_o ON orders (customer_id);\nALTER TABLE orders ADD note text;\n"
+     "CREATE OR REPLACE TABLE orders (id int, buyer_id int);\nCREATE INDEX ix_b ON orders (buyer_id);\n", "snowflake"),
+    ("CREATE TABLE IF NOT EXISTS ev (id int);\nALTER TABLE ev ADD a int;\nCREATE TABLE IF NOT EXISTS ev (id int);\nALTER TABLE ev ADD b int;\n", "postgres"),
+    ("SET search_path = public, pg_catalog;\nSET DateStyle TO ISO, MDY;\nCREATE TABLE st (a int);\nSET client_encoding = 'UTF8';\n", "postgres"),
+    ("CREATE TABLE accounts (name text, email text);\nALTER TABLE accounts ADD account_no int PRIMARY KEY;\n"
+     "ALTER TABLE accounts RENAME COLUMN account_no TO id;\n", "sql"),
+    ("CREATE TABLE accounts2 (name text, email text);\nALTER TABLE accounts2 ADD account_no int PRIMARY KEY;\nALTER TABLE accounts2 DROP COLUMN account_no;\n", "mysql"),
+    ("CREATE TABLE jobs (id int, state varchar(10) DEFAULT 'active');\nCREATE TABLE jobs_archive LIKE jobs;\n"
+     "ALTER TABLE jobs_archive MODIFY COLUMN state varchar(20);\n", "mysql"),
+]
+
+
 def corpus():
+    """the frozen regression corpus, followed by the dialect short forms and multi-statement scenarios written for this harness (every corpus sweep
+    - adjacent pairs, re-layouts, comment insertion, modes, shapes, regrouping, histories, cache states - covers them too)"""
     if not _CORPUS:
         with open(CORPUS_FILE) as f:
             _CORPUS.extend(json.load(f))
+        for n, (text, mode) in enumerate(SHORT_FORMS + SCENARIOS):
+            _CORPUS.append({"src": "harness-text:%d" % n, "ddl": text, "ctor": {}, "run": {"output_mode": mode} if mode != "sql" else {}, "wellformed": True})
     return _CORPUS
 
 
